@@ -8,9 +8,9 @@ use crate::common::*;
 use simple_sds::bit_vector::rank_support::RankSupport;
 use simple_sds::bit_vector::select_support::SelectSupport;
 use simple_sds::bit_vector::{BitVector, Complement, Identity};
-use simple_sds::int_vector::IntVector;
+use simple_sds::int_vector::{IntVector, IntVectorWriter};
 use simple_sds::ops::*;
-use simple_sds::raw_vector::{AccessRaw, PushRaw, RawVector};
+use simple_sds::raw_vector::{AccessRaw, PushRaw, RawVector, RawVectorWriter};
 use simple_sds::serialize::{self, Serialize};
 use std::fmt::Write as FmtWrite;
 use std::io::{self, ErrorKind, Read, Write};
@@ -925,6 +925,396 @@ fn run_c14(rng: &mut Rng, out: &mut Out, thorough: bool) {
         emit_sink(out, it.as_ref(), 0);
         if rng.below(3) == 0 {
             emit_sink(out, it.as_ref(), 1);
+        }
+    }
+    run_c14_writers(rng, out, thorough);
+}
+
+// ---------------------------------------------------------------- C14: buffered file writers over a failing file
+// The real RawVectorWriter / IntVectorWriter on a regular file under RLIMIT_FSIZE (soft limit only, SIGXFSZ ignored,
+// in a forked child because the limit is process-wide: the parent keeps writing its own output) and on /dev/full.
+// The child sends one line of numbers per case through a pipe (pipes are not subject to the limit).
+
+#[derive(Clone)]
+enum WOp {
+    Bit(bool),
+    Int(u64, usize),
+}
+
+#[derive(Clone)]
+struct WCase {
+    int: bool,
+    full: bool,   // /dev/full instead of a limited regular file
+    limit: u64,   // bytes
+    width: usize, // IntVectorWriter only
+    buf: usize,   // bits (raw) or items (int)
+    ops: Vec<WOp>,
+}
+
+const NOT_CALLED: u64 = 99;
+
+struct WObs {
+    created: u64,
+    panic: Option<(u64, u64)>,
+    close: u64,
+    open: bool,
+    len: u64,
+    file: Vec<u64>,
+    tail_bytes: u64,
+}
+
+fn errno_of(e: &io::Error) -> u64 {
+    match e.raw_os_error() {
+        Some(c) => c as u64,
+        None => 1000,
+    }
+}
+
+fn soft_limit() -> libc::rlim_t {
+    unsafe {
+        let mut r: libc::rlimit = std::mem::zeroed();
+        libc::getrlimit(libc::RLIMIT_FSIZE, &mut r);
+        r.rlim_cur
+    }
+}
+
+fn set_soft_limit(l: libc::rlim_t) {
+    unsafe {
+        let mut r: libc::rlimit = std::mem::zeroed();
+        libc::getrlimit(libc::RLIMIT_FSIZE, &mut r);
+        r.rlim_cur = l;
+        libc::setrlimit(libc::RLIMIT_FSIZE, &r);
+    }
+}
+
+fn close_code(r: Res<io::Result<()>>) -> u64 {
+    match r {
+        Res::Ok(Ok(())) => 0,
+        Res::Ok(Err(e)) => errno_of(&e),
+        Res::Panic(k, _) => 2000 + k,
+    }
+}
+
+// runs in the child
+fn run_session(c: &WCase, path: &std::path::Path, unlimited: libc::rlim_t) -> WObs {
+    let target: std::path::PathBuf = if c.full { std::path::PathBuf::from("/dev/full") } else { path.to_path_buf() };
+    let mut obs = WObs { created: 0, panic: None, close: NOT_CALLED, open: false, len: 0, file: Vec::new(), tail_bytes: 0 };
+    if !c.full {
+        set_soft_limit(c.limit as libc::rlim_t);
+    }
+    if c.int {
+        match catch(|| IntVectorWriter::with_buf_len(&target, c.width, c.buf)) {
+            Res::Ok(Ok(mut w)) => {
+                for (i, op) in c.ops.iter().enumerate() {
+                    if let WOp::Int(v, _) = op {
+                        if let Res::Panic(k, _) = catch(|| w.push(*v)) {
+                            obs.panic = Some((i as u64, k));
+                            break;
+                        }
+                    }
+                }
+                obs.close = close_code(catch(|| w.close()));
+                obs.open = w.is_open();
+                obs.len = w.len() as u64;
+                let _ = catch(move || drop(w));
+            }
+            Res::Ok(Err(e)) => obs.created = errno_of(&e),
+            Res::Panic(k, _) => obs.created = 2000 + k,
+        }
+    } else {
+        let mut header: Vec<u64> = Vec::new();
+        match catch(|| RawVectorWriter::with_buf_len(&target, &mut header, c.buf)) {
+            Res::Ok(Ok(mut w)) => {
+                for (i, op) in c.ops.iter().enumerate() {
+                    let r = match op {
+                        WOp::Bit(bit) => catch(|| w.push_bit(*bit)),
+                        WOp::Int(v, width) => catch(|| unsafe { w.push_int(*v, *width) }),
+                    };
+                    if let Res::Panic(k, _) = r {
+                        obs.panic = Some((i as u64, k));
+                        break;
+                    }
+                }
+                obs.close = close_code(catch(|| w.close()));
+                obs.open = w.is_open();
+                obs.len = w.len() as u64;
+                let _ = catch(move || drop(w));
+            }
+            Res::Ok(Err(e)) => obs.created = errno_of(&e),
+            Res::Panic(k, _) => obs.created = 2000 + k,
+        }
+    }
+    set_soft_limit(unlimited);
+    if !c.full {
+        match std::fs::read(path) {
+            Ok(bytes) => {
+                let (elems, tail) = to_elems(&bytes);
+                obs.file = elems;
+                obs.tail_bytes = tail.len() as u64;
+            }
+            Err(_) => obs.file = vec![0xBAD1_BAD1_BAD1_BAD1],
+        }
+        let _ = std::fs::remove_file(path);
+    }
+    obs
+}
+
+fn obs_line(o: &WObs) -> String {
+    let mut s = String::new();
+    let (pi, pk) = match o.panic {
+        Some((i, k)) => (i as i64, k as i64),
+        None => (-1, -1),
+    };
+    let _ = write!(s, "{} {} {} {} {} {} {} {}", o.created, pi, pk, o.close, o.open as u64, o.len, o.tail_bytes, o.file.len());
+    for x in o.file.iter() {
+        let _ = write!(s, " {}", x);
+    }
+    s.push('\n');
+    s
+}
+
+fn parse_obs(line: &str) -> Option<WObs> {
+    let v: Vec<&str> = line.split_whitespace().collect();
+    if v.len() < 8 {
+        return None;
+    }
+    let pi: i64 = v[1].parse().ok()?;
+    let pk: i64 = v[2].parse().ok()?;
+    let n: usize = v[7].parse().ok()?;
+    if v.len() != 8 + n {
+        return None;
+    }
+    let mut file = Vec::with_capacity(n);
+    for x in &v[8..] {
+        file.push(x.parse::<u64>().ok()?);
+    }
+    Some(WObs {
+        created: v[0].parse().ok()?,
+        panic: if pi >= 0 { Some((pi as u64, pk as u64)) } else { None },
+        close: v[3].parse().ok()?,
+        open: v[4] == "1",
+        len: v[5].parse().ok()?,
+        file,
+        tail_bytes: v[6].parse().ok()?,
+    })
+}
+
+// one forked child for the whole batch; None = the child did not deliver that case
+fn run_batch(cases: &[WCase], dir: &std::path::Path) -> Vec<Option<WObs>> {
+    use std::os::unix::io::FromRawFd;
+    let mut fds = [0 as libc::c_int; 2];
+    if unsafe { libc::pipe(fds.as_mut_ptr()) } != 0 {
+        return cases.iter().map(|_| None).collect();
+    }
+    let pid = unsafe { libc::fork() };
+    if pid < 0 {
+        return cases.iter().map(|_| None).collect();
+    }
+    if pid == 0 {
+        // child: never returns, never writes to anything but the test files and the pipe
+        unsafe {
+            libc::close(fds[0]);
+            libc::signal(libc::SIGXFSZ, libc::SIG_IGN);
+        }
+        let unlimited = soft_limit();
+        let me = unsafe { libc::getpid() };
+        let mut text = String::new();
+        for (i, c) in cases.iter().enumerate() {
+            let path = dir.join(format!("c14w-{}-{}.bin", me, i));
+            let o = run_session(c, &path, unlimited);
+            text.push_str(&obs_line(&o));
+        }
+        let bytes = text.as_bytes();
+        let mut off = 0usize;
+        while off < bytes.len() {
+            let k = unsafe { libc::write(fds[1], bytes[off..].as_ptr() as *const libc::c_void, bytes.len() - off) };
+            if k <= 0 {
+                break;
+            }
+            off += k as usize;
+        }
+        unsafe {
+            libc::close(fds[1]);
+            libc::_exit(0);
+        }
+    }
+    unsafe {
+        libc::close(fds[1]);
+    }
+    let mut text = String::new();
+    {
+        let mut f = unsafe { std::fs::File::from_raw_fd(fds[0]) };
+        let _ = f.read_to_string(&mut text);
+    }
+    let mut status: libc::c_int = 0;
+    unsafe {
+        libc::waitpid(pid, &mut status, 0);
+    }
+    let mut res: Vec<Option<WObs>> = text.lines().map(parse_obs).collect();
+    res.resize_with(cases.len(), || None);
+    res
+}
+
+fn wcase_mem(c: &WCase) -> Vec<u64> {
+    let mut bytes: Vec<u8> = Vec::new();
+    if c.int {
+        let mut v = IntVector::new(c.width).unwrap();
+        for op in c.ops.iter() {
+            if let WOp::Int(x, _) = op {
+                v.push(*x);
+            }
+        }
+        v.serialize(&mut bytes).unwrap();
+    } else {
+        let mut v = RawVector::new();
+        for op in c.ops.iter() {
+            match op {
+                WOp::Bit(bit) => v.push_bit(*bit),
+                WOp::Int(x, w) => unsafe { v.push_int(*x, *w) },
+            }
+        }
+        v.serialize(&mut bytes).unwrap();
+    }
+    to_elems(&bytes).0
+}
+
+fn emit_wcase(out: &mut Out, c: &WCase, o: &Option<WObs>) {
+    let mem = wcase_mem(c);
+    let lost = WObs { created: 3000, panic: None, close: NOT_CALLED, open: false, len: 0, file: Vec::new(), tail_bytes: 0 };
+    let o = match o {
+        Some(o) => o,
+        None => {
+            out.stat("c14w.child_lost_case");
+            &lost
+        }
+    };
+    let class = if o.created != 0 {
+        "constructor_err"
+    } else if o.panic.is_some() {
+        "push_panic"
+    } else if o.close != 0 {
+        "close_err"
+    } else {
+        "complete"
+    };
+    out.stat(&format!("c14w.{}.{}", if c.int { "int" } else { "raw" }, class));
+    out.stat(if c.full { "c14w.sink.dev_full" } else { "c14w.sink.rlimit_fsize" });
+    if !c.full && c.limit % 8 != 0 {
+        out.stat("c14w.limit_not_multiple_of_8");
+    }
+    if o.tail_bytes != 0 {
+        out.stat("c14w.file_with_partial_element");
+    }
+    if class == "complete" && !c.full && c.limit == 8 * mem.len() as u64 {
+        out.stat("c14w.complete_at_exact_limit");
+    }
+    if class != "complete" && o.open {
+        out.stat("c14w.left_open_after_close_err");
+    }
+    let panic = opt(&o.panic, |p| pair(n(p.0), n(p.1)));
+    let sk = if c.full { 1 } else { 0 };
+    let tail = format!("{} {} {} {} {} {} {}", nlist(&mem), n(o.created), panic, n(o.close), b(o.open), n(o.len), nlist(&o.file));
+    let json = format!(
+        "{{\"int\":{},\"dev_full\":{},\"limit\":{},\"width\":{},\"buf\":{},\"pushes\":{},\"complete_bytes\":{},\"class\":{:?},\"created\":{},\"panic\":{:?},\"close\":{},\"open\":{},\"file_elems\":{}}}",
+        c.int, c.full, c.limit, c.width, c.buf, c.ops.len(), 8 * mem.len(), class, o.created, o.panic, o.close, o.open, o.file.len()
+    );
+    if c.int {
+        let xs: Vec<u64> = c.ops.iter().map(|op| if let WOp::Int(x, _) = op { *x } else { 0 }).collect();
+        let term = format!("CWInt {} {} {} {} {} {} {}", b(DBG), sk, n(c.limit), c.width, c.buf, nlist(&xs), tail);
+        out.case("wint", term, json, !c.ops.is_empty());
+    } else {
+        let mut ops = String::from("[");
+        for (i, op) in c.ops.iter().enumerate() {
+            if i > 0 {
+                ops.push_str("; ");
+            }
+            match op {
+                WOp::Bit(bit) => {
+                    let _ = write!(ops, "WB {}", b(*bit));
+                }
+                WOp::Int(x, w) => {
+                    let _ = write!(ops, "WI {} {}", n(*x), w);
+                }
+            }
+        }
+        ops.push(']');
+        let term = format!("CWRaw {} {} {} {} {} {}", b(DBG), sk, n(c.limit), c.buf, ops, tail);
+        out.case("wraw", term, json, !c.ops.is_empty());
+    }
+}
+
+// the limits tried for a file whose complete size is `full` bytes
+fn wlimits(rng: &mut Rng, full: u64, thorough: bool) -> Vec<u64> {
+    let mut all: Vec<u64> = vec![0, 8, 16, 24, 64, 72, 1024, 20, full + 8, full.saturating_sub(3), full.saturating_sub(16)];
+    // always: exactly enough, one element short, and a limit in the middle of the data (a flush during the pushes fails)
+    let mut pick: Vec<u64> = vec![full, full.saturating_sub(8), full / 16 * 8, full / 32 * 24];
+    if thorough {
+        pick.append(&mut all);
+    } else {
+        for _ in 0..3 {
+            let k = rng.below(all.len() as u64) as usize;
+            pick.push(all.swap_remove(k));
+        }
+    }
+    pick.sort();
+    pick.dedup();
+    pick
+}
+
+fn run_c14_writers(rng: &mut Rng, out: &mut Out, thorough: bool) {
+    let dir = std::path::PathBuf::from(std::env::var("VERIF_RUNDIR").unwrap_or_else(|_| std::env::temp_dir().to_string_lossy().to_string()));
+    let mut cases: Vec<WCase> = Vec::new();
+    // IntVectorWriter: widths x buffer sizes x item counts around the flush points x limits around the complete size
+    for &width in [1usize, 7, 13, 32, 64].iter() {
+        for &bits in [64usize, 128, 1024].iter() {
+            let items = (bits + width - 1) / width;
+            let mut counts: Vec<usize> = vec![0, 1, items, 2 * items + 3, (20 * 64 + width - 1) / width + 1];
+            if thorough {
+                counts.push(items - 1 + (items == 1) as usize);
+                counts.push(3 * items);
+                counts.push(rng.range(1, 400) as usize);
+            }
+            for &cnt in counts.iter() {
+                let ops: Vec<WOp> = (0..cnt).map(|_| WOp::Int(rng.word(), width)).collect();
+                let full = 8 * (4 + (cnt * width + 63) / 64) as u64;
+                for limit in wlimits(rng, full, thorough) {
+                    cases.push(WCase { int: true, full: false, limit, width, buf: items, ops: ops.clone() });
+                }
+            }
+            let cnt = rng.range(0, 40) as usize;
+            let ops: Vec<WOp> = (0..cnt).map(|_| WOp::Int(rng.word(), width)).collect();
+            cases.push(WCase { int: true, full: true, limit: 0, width, buf: items, ops });
+        }
+    }
+    // RawVectorWriter: mixed bit and integer pushes
+    for &bits in [64usize, 128, 1024].iter() {
+        for _ in 0..(if thorough { 24 } else { 6 }) {
+            let target_bits = *rng.pick(&[0u64, 10, 64, 200, 640, 1400, 3000]);
+            let mut ops: Vec<WOp> = Vec::new();
+            let mut total = 0u64;
+            while total < target_bits {
+                if rng.chance(1, 3) {
+                    ops.push(WOp::Bit(rng.chance(1, 2)));
+                    total += 1;
+                } else {
+                    let w = *rng.pick(&[0usize, 1, 7, 13, 32, 63, 64]);
+                    ops.push(WOp::Int(rng.word(), w));
+                    total += w as u64;
+                }
+            }
+            let full = 8 * (2 + (total + 63) / 64);
+            for limit in wlimits(rng, full, thorough) {
+                cases.push(WCase { int: false, full: false, limit, width: 0, buf: bits, ops: ops.clone() });
+            }
+        }
+        let ops: Vec<WOp> = (0..rng.range(0, 30)).map(|_| WOp::Int(rng.word(), 13)).collect();
+        cases.push(WCase { int: false, full: true, limit: 0, width: 0, buf: bits, ops });
+    }
+    for chunk in cases.chunks(64) {
+        let res = run_batch(chunk, &dir);
+        out.stat("c14w.forked_batches");
+        for (c, o) in chunk.iter().zip(res.iter()) {
+            emit_wcase(out, c, o);
         }
     }
 }
